@@ -362,6 +362,8 @@ Definition dcontinue (P : dparams) (c : cstate) (dstCap : N) (src : bytes) (srcS
       if negb (bp_csize bp =? 0) then
         MOk (c_set_block c (if bp_last bp then DLastBlock else DBlock) (bp_csize bp) (bp_type bp) (bp_orig bp), [])
       else if bp_last bp then
+        (* empty last block: the content-size check of the frame end (/repo commit f70c502) *)
+        fail_if (andb (negb (fp_fcs (c_fp c) =? UNKNOWN)) (negb (c_decoded c =? fp_fcs (c_fp c)))) with Ecorruption;
         if fp_checksum (c_fp c) then MOk (c_set_block c DChecksum 4 (bp_type bp) (bp_orig bp), [])
         else MOk (c_set_block c DGetFHSize 0 (bp_type bp) (bp_orig bp), [])
       else MOk (c_set_block c DDecodeBH BHS (bp_type bp) (bp_orig bp), [])
